@@ -3,7 +3,7 @@ from salib import mir
 from salib.mir import role_str, role_walk, strip_role, role_mentions_field, role_mentions_call, role_mentions_param
 from salib.runner import rule, where_of
 from . import common as C
-from . import c01, c08
+from . import c01, c08, c10
 
 META = {
     "level": "other",
@@ -146,7 +146,16 @@ def t6(ctx):
                 ctx.check(ok, "find-consults-unionfind:%s:%d" % (name, i), "%s: the result is derived from the union-find entry" % name,
                           "%s has a return path whose result (%s) does not come from the union-find entry. A live class's own entry is not the identity once it lost a slot (the entry is rewritten to the restricted identity), so a shortcut for leaders returns handles with arguments that are no longer slots of the class: an equality that held before compares false afterwards" % (name, r[:140]),
                           where_of(b, d["bb"], d.get("line")))
-    ctx.floor("return paths of the find family", n, 5)
+    ctx.floor("return paths of the find family", n, 3)
 
 
 RULES = [t1, t2, t3, t4, t5, t6]
+
+
+@rule("T7", doc="symmetries survive every group reconstruction (shared with C10.G2/G3): add_set rebuilds from old generators | new ones, and generators() covers every level of the stabiliser chain")
+def t7(ctx):
+    c10.g2(ctx)
+    c10.g3(ctx)
+
+
+RULES.append(t7)
